@@ -338,6 +338,9 @@ func runC16(w *World, r *Report) {
 		}
 	}
 
+	r.Rule("C16.carrier-not-forwarded", "an undesignated Option carrying no component options (callbacks, step limit, checkpoint settings of the called graph) is not distributed to any node", 2)
+	undesignatedCarrierCheck(w, r, "C16.carrier-not-forwarded", "settings addressed to the called graph itself reach its nested graphs")
+
 	// ---- no-leak
 	r.Rule("C16.no-leak", "no write through inputs; per-node lists built on the per-run map element; nested options are deepCopy results; deepCopy copies slices", 6)
 	ruleNoMutateParams(w, r, "C16.no-leak", eo, nil)
@@ -482,3 +485,49 @@ func runC16(w *World, r *Report) {
 }
 
 var optsForwardExceptions = map[string]string{}
+
+// undesignatedCarrierCheck: in extractOption, an undesignated Option that carries no component options (a carrier of
+// callbacks / the run-time step limit / checkpoint settings of THIS graph) is never distributed to a node. Every
+// distribution write on the undesignated arm must be dominated by "len(opt.options) != 0".
+func undesignatedCarrierCheck(w *World, r *Report, rule, consequence string) {
+	eo := w.Fn("compose", "extractOption")
+	fOptions := w.Field("compose", "Option", "options")
+	fPaths := w.Field("compose", "Option", "paths")
+	var optMap *ssa.MakeMap
+	instrs(eo, func(in ssa.Instruction) {
+		if mm, ok := in.(*ssa.MakeMap); ok && optMap == nil {
+			optMap = mm
+		}
+	})
+	n := 0
+	instrs(eo, func(in ssa.Instruction) {
+		mu, ok := in.(*ssa.MapUpdate)
+		if !ok || optMap == nil || mu.Map != ssa.Value(optMap) {
+			return
+		}
+		gs := guardsOf(mu.Block())
+		undesignated, hasOptions := false, false
+		for _, g := range gs {
+			op, x, y, ok := asCmp(g.cond)
+			if !ok || !isConstN(y, 0) {
+				continue
+			}
+			positive := (op == token.EQL && !g.pol) || (op == token.NEQ && g.pol) || (op == token.GTR && g.pol)
+			zero := (op == token.EQL && g.pol) || (op == token.NEQ && !g.pol) || (op == token.GTR && !g.pol)
+			if isLenOf(x, func(v ssa.Value) bool { return isLoadOfField(v, fPaths) }) && zero {
+				undesignated = true
+			}
+			if isLenOf(x, func(v ssa.Value) bool { return isLoadOfField(v, fOptions) }) && positive {
+				hasOptions = true
+			}
+		}
+		if !undesignated {
+			return
+		}
+		n++
+		r.Check(hasOptions, rule, fmt.Sprintf("extractOption: undesignated distribution write #%d", n), mu.Pos(), "only under len(opt.options) != 0", "an undesignated Option without component options is handed to a node: "+consequence)
+	})
+	if n == 0 {
+		r.Fail(rule, "extractOption: undesignated distribution writes", eo.Pos(), "no distribution write under len(opt.paths) == 0 found")
+	}
+}
